@@ -16,6 +16,7 @@ import SkNet.Lemmas.ClassMetrics
 import SkNet.Lemmas.ClassifySelect
 import SkNet.Lemmas.ClassifyKnnSpec
 import SkNet.Lemmas.ClassifyStrong
+import SkNet.Lemmas.ClassifyEquiv
 
 namespace SkNet.C13
 open SkNet SkNet.Classify
@@ -823,5 +824,86 @@ theorem weighted_f1_full_false : ¬ weighted_f1_full := by
 example : ClassMetrics.accuracy [0,0,1,1,-1] [0,1,1,1,0] = .ok (3/4) ∧
     (ClassMetrics.f1Scores [0,0,1,1,-1] [0,1,1,1,0]).map (·.f1) = .ok [2/3, 4/5] :=
   ⟨by decide +kernel, by decide +kernel⟩
+
+/-! ## Renumbering the nodes (the C02 clause for the classifiers modelled here)
+
+`SkNet.WL.IsPerm n π πinv`: `π`, `πinv` inverse bijections of `{0..n-1}`.  `RelabelOf n π c c'`: `c'` stores the graph of
+`c` with node `i` renumbered `π i` (row `π i` of `c'` is row `i` of `c` with columns renumbered, entries in any order).
+`relabelVals n πinv l`: the vector `l` moved along (`(relabelVals …)[π i] = l[i]`). Ties of the arg-max are broken by the
+class index, which renumbering the nodes does not touch. -/
+
+/-- ★ **diffusion_relabel_equivariant**.  For every permutation of the nodes, every graph, every seeds vector, every
+    `n_iter` and both settings of `centering`: DiffusionClassifier on the renumbered graph with the renumbered seeds
+    succeeds and returns the renumbered result: `labels'[π i] = labels[i]`, the same temperatures row (hence the same
+    row of `probs_`, with or without centring, for any function standing for `np.exp`) and the same reached flag. -/
+theorem diffusion_relabel_equivariant {n : Nat} {π πinv : Nat → Nat} (hp : WL.IsPerm n π πinv) (c c' : Csr Rat)
+    (hrel : RelabelOf n π c c') (labels : List Int) (hl : labels.length = n) (nIter : Nat) (centering : Bool)
+    (o : Diffusion.Out) (h : Diffusion.fit c labels nIter centering = .ok o) :
+    ∃ o', Diffusion.fit c' (relabelVals n πinv labels) nIter centering = .ok o' ∧
+      ∀ i, i < n → o'.labels.getD (π i) (-1) = o.labels.getD i (-1) ∧
+        getRow (Diffusion.probsPlain o') (π i) = getRow (Diffusion.probsPlain o) i ∧
+        ∀ (scale : Rat) (expf : Rat → Rat),
+          getRow (Diffusion.probsSoft o' scale expf) (π i) = getRow (Diffusion.probsSoft o scale expf) i := by
+  obtain ⟨o', ho', hlen', hall⟩ := Diffusion.relabel_equivariant hp c c' hrel labels hl nIter centering o h
+  have hlen : o.labels.length = n := by
+    rw [Diffusion.labels_length c labels nIter centering o (Diffusion.fit_parts c labels nIter centering o h), hl]
+  refine ⟨o', ho', ?_⟩
+  intro i hi
+  obtain ⟨h1, h2, h3⟩ := hall i hi
+  refine ⟨h1, ?_, ?_⟩
+  · unfold Diffusion.probsPlain
+    rw [getRow_tab, getRow_tab, hlen', hlen, if_pos (hp.lt i hi), if_pos hi, h2, h3]
+  · intro scale expf
+    unfold Diffusion.probsSoft
+    rw [getRow_tab, getRow_tab, hlen', hlen, if_pos (hp.lt i hi), if_pos hi, h2, h3]
+
+/-- ★ **rank_relabel_equivariant**.  For the rank-based classifier (PageRankClassifier) after the scores — the scores of
+    the renumbered graph being the renumbered scores, which is the equivariance of the ranking itself (C04) —:
+    renumbering the nodes renumbers `labels_` and the rows of `probs_`. -/
+theorem rank_relabel_equivariant {n : Nat} {π πinv : Nat → Nat} (hp : WL.IsPerm n π πinv) (values : List Int)
+    (scores : List (List Rat)) (hv : values.length = n) (hs : scores.length = n) (o : Rank.Out)
+    (h : Rank.fitCore values scores = .ok o) :
+    ∃ o', Rank.fitCore (relabelVals n πinv values) (relabelRows n πinv scores) = .ok o' ∧
+      ∀ i, i < n → o'.labels.getD (π i) (-1) = o.labels.getD i (-1) ∧ getRow o'.probs (π i) = getRow o.probs i :=
+  Rank.relabel_equivariant hp values scores hv hs o h
+
+/-- ★ **propagation_probs_relabel_equivariant**.  The probability rows of Propagation are a function of the graph and
+    of the final labels, and that function is equivariant: with renumbered labels the row of node `π i` is the row of
+    node `i`.  The *labels* of Propagation are **not** equivariant in general: the sweep updates the nodes in place, in
+    index order (or in an order derived from the node weights with ties broken by index), so the numbering decides who
+    is updated first — see `propagation_labels_depend_on_numbering`. -/
+theorem propagation_probs_relabel_equivariant {n : Nat} {π πinv : Nat → Nat} (hp : WL.IsPerm n π πinv) (c c' : Csr Rat)
+    (hrel : RelabelOf n π c c') (labels : List Int) (hl : labels.length = n) (i : Nat) (hi : i < n) :
+    Propagation.probsRow c' (relabelVals n πinv labels) (π i) = Propagation.probsRow c labels i :=
+  propagation_probsRow_relabel hp c c' hrel labels hl i hi
+
+/-- the path `s₁ — a — b — s₂` with weights 1, 2, 1, nodes numbered 0,1,2,3 -/
+def chainGraph : Csr Rat :=
+  { nRow := 4, nCol := 4, indptr := #[0,1,3,5,6], indices := #[1,0,2,1,3,2], data := #[1,1,2,2,1,1] }
+
+/-- the same path with `a` and `b` exchanged (`π = (1 2)`): `s₁ — 2 — 1 — s₂` -/
+def chainGraphSwapped : Csr Rat :=
+  { nRow := 4, nCol := 4, indptr := #[0,1,3,5,6], indices := #[2,2,3,0,1,1], data := #[1,2,1,1,2,1] }
+
+/-- the transposition of nodes 1 and 2 -/
+def swap12 (i : Nat) : Nat := if i = 1 then 2 else if i = 2 then 1 else i
+
+/-- non-vacuity of the hypotheses of the equivariance theorems: a concrete permutation and a concrete renumbered graph -/
+example : WL.IsPerm 4 swap12 swap12 ∧ RelabelOf 4 swap12 chainGraph chainGraphSwapped ∧
+    (Diffusion.fit chainGraph [5,-1,-1,7] 3 true).map (·.labels) = .ok [5,5,7,7] ∧
+    (Diffusion.fit chainGraphSwapped (relabelVals 4 swap12 [5,-1,-1,7]) 3 true).map (·.labels) = .ok [5,7,5,7] := by
+  refine ⟨⟨by decide, by decide, by decide, by decide⟩, ⟨?_, ?_⟩, by decide +kernel, by decide +kernel⟩
+  · exact fun i hi => (by decide +kernel : ∀ i, i < 4 →
+      (chainGraphSwapped.row (swap12 i)).Perm ((chainGraph.row i).map fun e => (swap12 e.1, e.2))) i hi
+  · exact fun i hi => (by decide +kernel : ∀ i, i < 4 → ∀ e ∈ chainGraph.row i, e.1 < 4) i hi
+
+/-- **Propagation's labels depend on the numbering** (why there is no `propagation_labels_relabel_equivariant`): on
+    the path `s₁ — a — b — s₂` with seeds 5 and 7 at the ends, the node visited first takes the label of its seed and
+    hands it to the other one through the heavier middle edge.  Numbered `a = 1, b = 2` both take 5; numbered
+    `a = 2, b = 1` both take 7. -/
+theorem propagation_labels_depend_on_numbering :
+    Vote.fit chainGraph [5,-1,-1,7] {} 10 = some ([5,5,5,7], 2) ∧
+    Vote.fit chainGraphSwapped (relabelVals 4 swap12 [5,-1,-1,7]) {} 10 = some ([5,7,7,7], 2) := by
+  exact ⟨by decide +kernel, by decide +kernel⟩
 
 end SkNet.C13
